@@ -31,8 +31,24 @@ pub fn install_panic_hook() {
 
 const BYTE_ARGS: &[&str] = &[
     "ikm", "rng", "sk", "pk", "bytes", "psk", "pskid", "pkr", "sks", "pks", "skr", "enc", "info",
-    "pt", "aad", "ct", "tag", "exctx", "key", "bn", "es",
+    "pt", "aad", "ct", "tag", "exctx", "key", "bn", "es", "pks2", "pks3", "pks4",
 ];
+
+/// Transformed copies of a secret that an implementation might keep around instead of (or besides)
+/// the secret itself: byte-reversed, XORed with the HMAC pads, 64-bit halves byte-reversed.
+fn derived_needles(tag: &str, v: &[u8]) -> Vec<(String, Vec<u8>)> {
+    let mut out = Vec::new();
+    if v.len() < 8 {
+        return out;
+    }
+    let rev: Vec<u8> = v.iter().rev().cloned().collect();
+    out.push((format!("{}_rev", tag), rev));
+    out.push((format!("{}_x36", tag), v.iter().map(|b| b ^ 0x36).collect()));
+    out.push((format!("{}_x5c", tag), v.iter().map(|b| b ^ 0x5c).collect()));
+    out.push((format!("{}_tail8rev", tag), v[v.len() - 8..].iter().rev().cloned().collect()));
+    out.push((format!("{}_head8rev", tag), v[..8].iter().rev().cloned().collect()));
+    out
+}
 
 struct Fields(Vec<String>);
 impl Fields {
@@ -65,6 +81,9 @@ struct Args<'a> {
 impl<'a> Args<'a> {
     fn b(&self, k: &str) -> &[u8] {
         self.bytes.get(k).map(|v| v.as_slice()).unwrap_or(&[])
+    }
+    fn has_bytes(&self, k: &str) -> bool {
+        self.bytes.contains_key(k)
     }
     fn opt_b(&self, k: &str) -> Option<&[u8]> {
         self.bytes.get(k).map(|v| v.as_slice())
@@ -594,6 +613,160 @@ impl Session {
                     }
                 }
             }
+            "setup_r_reuse" => {
+                let mut list: Vec<&[u8]> = Vec::new();
+                for k in ["pks", "pks2", "pks3", "pks4"] {
+                    if let Some(b) = a.opt_b(k) {
+                        list.push(b);
+                    }
+                }
+                let mut m = a.mode();
+                m.pks = Vec::new();
+                let r = self.suite.as_ref().unwrap().setup_r_reuse(&m, a.b("skr"), a.b("enc"), a.b("info"), &list);
+                match r {
+                    Ok(rs) => {
+                        f.ok();
+                        for (i, r) in rs.iter().enumerate() {
+                            match r {
+                                Ok(b) => f.kv(&format!("v{}", i), out(b)),
+                                Err(e) => f.kv(&format!("v{}", i), format!("err:{}", err_name(e))),
+                            };
+                        }
+                    }
+                    Err(e) => {
+                        f.fail(&e);
+                    }
+                }
+            }
+            "giant" => {
+                // one very large message through the in-place seal and either opening API, no copies kept
+                let n = a.u("len") as usize;
+                let aad = a.b("aad").to_vec();
+                let (Some(cs), Some(cr)) = (self.cs.get_mut(a.s("cs")), self.cr.get_mut(a.s("cr"))) else {
+                    f.skip("noctx");
+                    return f;
+                };
+                let mut buf: Vec<u8> = Vec::with_capacity(n + 64);
+                buf.resize(n, 0);
+                let mut i = 0usize;
+                while i < n {
+                    buf[i] = (i as u64).wrapping_mul(0x9E3779B97F4A7C15u64).to_le_bytes()[7];
+                    i += 4093;
+                }
+                let d0 = <sha2::Sha256 as sha2::Digest>::digest(&buf);
+                match cs.seal_inplace(&mut buf, &aad) {
+                    Err(e) => {
+                        f.kv("seal", err_name(&e));
+                    }
+                    Ok(tag) => {
+                        f.kv("seal", "ok");
+                        let changed = <sha2::Sha256 as sha2::Digest>::digest(&buf) != d0;
+                        f.kv("encrypted", changed as u8);
+                        if a.s("api") == "alloc" {
+                            buf.extend_from_slice(&tag);
+                            match cr.open_alloc(&buf, &aad) {
+                                None => {
+                                    f.kv("open", "noalloc");
+                                }
+                                Some(Err(e)) => {
+                                    f.kv("open", err_name(&e));
+                                }
+                                Some(Ok(pt)) => {
+                                    let same = <sha2::Sha256 as sha2::Digest>::digest(&pt) == d0 && pt.len() == n;
+                                    f.kv("open", "ok").kv("same", same as u8);
+                                }
+                            }
+                        } else {
+                            match cr.open_inplace(&mut buf, &aad, &tag) {
+                                Err(e) => {
+                                    f.kv("open", err_name(&e.0));
+                                }
+                                Ok(()) => {
+                                    let same = <sha2::Sha256 as sha2::Digest>::digest(&buf) == d0;
+                                    f.kv("open", "ok").kv("same", same as u8);
+                                }
+                            }
+                        }
+                    }
+                }
+                f.ok();
+            }
+            "liveness" => {
+                // Which sightings of a secret (or of a transformed copy) inside the live context are actually READ by
+                // the library?  Each sighting is inverted in place, the context's observable behaviour (an export and,
+                // for senders, one seal at the current position) is compared with the baseline, and the bytes are
+                // restored.  A region whose inversion changes nothing is dead storage (padding, an inactive union
+                // variant, residue a move carried along); one that changes the behaviour is a live copy.
+                let name = a.s("ctx");
+                let nt = self.suite.as_ref().unwrap().nt();
+                let is_s = self.cs.contains_key(name);
+                if !is_s && !self.cr.contains_key(name) {
+                    f.skip("noctx");
+                    return f;
+                }
+                let secrets = if is_s { self.cs.get(name).unwrap().secrets() } else { self.cr.get(name).unwrap().secrets() };
+                // without hooks the case has to say what to look for
+                let (bn, es) = match secrets {
+                    Some(x) => x,
+                    None if a.has_bytes("es") => (a.b("bn").to_vec(), a.b("es").to_vec()),
+                    None => {
+                        f.skip("nohooks");
+                        return f;
+                    }
+                };
+                let mut named: Vec<(String, Vec<u8>)> = vec![("bn".into(), bn.clone()), ("es".into(), es.clone())];
+                named.extend(derived_needles("bn", &bn));
+                named.extend(derived_needles("es", &es));
+                let needles: Vec<&[u8]> = named.iter().map(|(_, v)| v.as_slice()).collect();
+                let (size, offs) = if is_s { self.cs.get(name).unwrap().peek(&needles) } else { self.cr.get(name).unwrap().peek(&needles) };
+                // behaviour probe
+                let behaviour = |sess: &mut Session| -> Vec<u8> {
+                    let mut o = vec![0u8; 48];
+                    if is_s {
+                        let c = sess.cs.get_mut(name).unwrap();
+                        let _ = c.export(b"liveness-probe", &mut o[..32]);
+                        if nt != 0 {
+                            if let Some((seq, ovf)) = c.seq_state() {
+                                if !ovf {
+                                    let mut buf = [0u8; 16];
+                                    if let Ok(tag) = c.seal_inplace(&mut buf, b"") {
+                                        o.extend_from_slice(&buf);
+                                        o.extend_from_slice(&tag);
+                                    }
+                                    c.set_seq(seq);
+                                }
+                            }
+                        }
+                    } else {
+                        let c = sess.cr.get_mut(name).unwrap();
+                        let _ = c.export(b"liveness-probe", &mut o[..32]);
+                    }
+                    o
+                };
+                let base = behaviour(self);
+                let mut items = Vec::new();
+                for (k, (nm, v)) in named.iter().enumerate() {
+                    for &o in &offs[k] {
+                        if is_s {
+                            self.cs.get_mut(name).unwrap().poke(o, v.len());
+                        } else {
+                            self.cr.get_mut(name).unwrap().poke(o, v.len());
+                        }
+                        let now = behaviour(self);
+                        if is_s {
+                            self.cs.get_mut(name).unwrap().poke(o, v.len());
+                        } else {
+                            self.cr.get_mut(name).unwrap().poke(o, v.len());
+                        }
+                        items.push(format!("{}@{}:{}", nm, o, (now != base) as u8));
+                    }
+                }
+                let after = behaviour(self);
+                f.ok()
+                    .kv("size", size)
+                    .kv("restored", (after == base) as u8)
+                    .kv("probes", if items.is_empty() { "-".to_string() } else { items.join(";") });
+            }
             "peek" => {
                 let name = a.s("ctx");
                 let (secrets, which): (Option<(Vec<u8>, Vec<u8>)>, u8) = if let Some(c) = self.cs.get(name) {
@@ -604,16 +777,29 @@ impl Session {
                     f.skip("noctx");
                     return f;
                 };
-                let Some((bn, es)) = secrets else {
-                    f.skip("nohooks");
-                    return f;
+                let (bn, es) = match secrets {
+                    Some(x) => x,
+                    None if a.has_bytes("es") => (a.b("bn").to_vec(), a.b("es").to_vec()),
+                    None => {
+                        f.skip("nohooks");
+                        return f;
+                    }
                 };
-                let needles: [&[u8]; 2] = [&bn, &es];
+                let mut named: Vec<(String, Vec<u8>)> = vec![("bn".into(), bn.clone()), ("es".into(), es.clone())];
+                named.extend(derived_needles("bn", &bn));
+                named.extend(derived_needles("es", &es));
+                let needles: Vec<&[u8]> = named.iter().map(|(_, v)| v.as_slice()).collect();
                 let (size, offs) = if which == 0 {
                     self.cs.get(name).unwrap().peek(&needles)
                 } else {
                     self.cr.get(name).unwrap().peek(&needles)
                 };
+                let mut der = Vec::new();
+                for (k, (name, _)) in named.iter().enumerate().skip(2) {
+                    for o in &offs[k] {
+                        der.push(format!("{}@{}", name, o));
+                    }
+                }
                 let show = |v: &Vec<usize>| {
                     if v.is_empty() {
                         "-".to_string()
@@ -621,7 +807,11 @@ impl Session {
                         v.iter().map(|x| x.to_string()).collect::<Vec<_>>().join(",")
                     }
                 };
-                f.ok().kv("size", size).kv("bn_at", show(&offs[0])).kv("es_at", show(&offs[1]));
+                f.ok()
+                    .kv("size", size)
+                    .kv("bn_at", show(&offs[0]))
+                    .kv("es_at", show(&offs[1]))
+                    .kv("derived", if der.is_empty() { "-".to_string() } else { der.join(";") });
             }
             "set_seq" => {
                 let seq: u64 = a.s("seq").parse().unwrap_or(0);
@@ -668,6 +858,7 @@ impl Session {
                 let pt = a.b("pt");
                 let aad = a.b("aad");
                 let spec = a.s("log");
+                let keep = a.call.get("keep") != Some("0");
                 let mut head = 0u64;
                 let mut tail = 0u64;
                 let mut stride = 0u64;
@@ -734,7 +925,9 @@ impl Session {
                             if want(i) {
                                 extra.push(format!("L {} i={} full={}", a.call.id, i, out(&full)));
                             }
-                            all.push(full);
+                            if keep {
+                                all.push(full);
+                            }
                         }
                         Err(e) => {
                             errc += 1;
@@ -763,7 +956,7 @@ impl Session {
                     .kv("okc", okc)
                     .kv("errc", errc)
                     .kv("firsterr", if firsterr.is_empty() { "-".into() } else { firsterr })
-                    .kv("dups", dups)
+                    .kv("dups", if keep { dups.to_string() } else { "-".to_string() })
                     .kv("firstdup", firstdup)
                     .kv("digest", lang::hex(&dg));
                 state_s(&mut f, ctx.as_ref());
@@ -784,7 +977,8 @@ impl Session {
                     f.skip("noctx");
                     return f;
                 };
-                if scan {
+                let heap = a.u("scan") == 2;
+                if scan || heap {
                     let secrets = match &c {
                         Either::S(c) => c.secrets(),
                         Either::R(c) => c.secrets(),
@@ -794,7 +988,32 @@ impl Session {
                         Some(x) => x,
                         None => (a.b("bn").to_vec(), a.b("es").to_vec()),
                     };
-                    let needles: [&[u8]; 2] = [&bn, &es];
+                    let mut named: Vec<(String, Vec<u8>)> = vec![("bn".into(), bn.clone()), ("es".into(), es.clone())];
+                    named.extend(derived_needles("bn", &bn));
+                    named.extend(derived_needles("es", &es));
+                    if heap {
+                        // ordinary drop of the boxed context with the freed-memory monitor armed
+                        let nd: Vec<Vec<u8>> = named.iter().map(|(_, v)| v.clone()).collect();
+                        let (hits, blocks) = crate::heapwatch::watch(&nd, move || match c {
+                            Either::S(c) => c.heap_drop(),
+                            Either::R(c) => c.heap_drop(),
+                        });
+                        let hs = named
+                            .iter()
+                            .zip(hits.iter())
+                            .filter(|(_, h)| **h > 0)
+                            .map(|((n, _), h)| format!("{}:{}", n, h))
+                            .collect::<Vec<_>>()
+                            .join(",");
+                        f.ok()
+                            .kv("bnlen", bn.len())
+                            .kv("eslen", es.len())
+                            .kv("blocks", blocks)
+                            .kv("heap_hits", if hs.is_empty() { "-".to_string() } else { hs });
+                        f.kv("lb", before).kv("la", ledger_str());
+                        return f;
+                    }
+                    let needles: Vec<&[u8]> = named.iter().map(|(_, v)| v.as_slice()).collect();
                     let rep = match c {
                         Either::S(c) => c.drop_scan(&needles),
                         Either::R(c) => c.drop_scan(&needles),
@@ -813,6 +1032,12 @@ impl Session {
                             v.iter().map(|x| if *x { "1" } else { "0" }).collect::<Vec<_>>().join(",")
                         }
                     };
+                    let mut der = Vec::new();
+                    for (k, (name, _)) in named.iter().enumerate().skip(2) {
+                        for (o, z) in rep.pre[k].iter().zip(rep.zero_after[k].iter()) {
+                            der.push(format!("{}@{}:{}", name, o, *z as u8));
+                        }
+                    }
                     f.ok()
                         .kv("size", rep.size)
                         .kv("bnlen", bn.len())
@@ -822,7 +1047,8 @@ impl Session {
                         .kv("bn_post", rep.post[0])
                         .kv("es_post", rep.post[1])
                         .kv("bn_zero", zs(&rep.zero_after[0]))
-                        .kv("es_zero", zs(&rep.zero_after[1]));
+                        .kv("es_zero", zs(&rep.zero_after[1]))
+                        .kv("derived", if der.is_empty() { "-".to_string() } else { der.join(";") });
                 } else {
                     drop(c);
                     f.ok();
